@@ -827,6 +827,11 @@ impl Core {
         )
     }
 
+    /// The body of a `GET /metrics` response at this moment
+    pub fn verif_metrics_text(&self) -> String {
+        self.context.metrics.verif_collect()
+    }
+
     /// The TLS demultiplexer decision for (ALPN list, SNI)
     pub fn verif_select(
         &self,
